@@ -1,26 +1,42 @@
 """C10 configuration for bin/check."""
 
 CFG = {
-        "tier_a": ["SchedFns"],
-        "model_targets": ["Sched/Algebra.vo"],
+        "tier_a": ["SchedFns", "SchedRunFacts.desugar_run", "SchedRunFacts.desugar_schedule", "SchedRunFacts.table_merge_changed",
+                   "SchedRunFacts.merge_callback_changed", "SchedRunFacts.iteration_changed", "SchedRunFacts.rebuild_needed"],
+        "model_targets": ["Sched/Algebra.vo", "Sched/EggStep.vo"],
         "proof_targets": ["Props/C10.vo"],
         "harness": [{"bin": "h_sched", "prefix": "cases_sched"}],
         "trusted": [
             "translator /verif/translator (sched.rs: run_schedule / run_rules / collect_rule_ids from src/lib.rs, "
-            "RunReport default/union/singleton from egglog-reports/src/lib.rs -> gen/SchedFns.v; the theorems are about that file)",
-            "harness h_sched: ruleset of each engine iteration is identified by a per-ruleset :naive marker rule in the iteration's rule report",
+            "RunReport default/union/singleton from egglog-reports/src/lib.rs -> gen/SchedFns.v; x_schedrun.rs: the schedule built by "
+            "parse_command \"run\"/\"run-schedule\" and parse_schedule, the inputs of the database `changed` flag (merge_all/merge_simple, "
+            "MergeFn::to_callback, IterationReport::changed, run_rules_inner) -> gen/SchedRunFacts.v; the theorems are about these files)",
+            "harness h_sched: ruleset of each engine iteration is identified by a per-ruleset :naive marker rule in the iteration's rule report; "
+            "stream egg: Egg-fragment programs (harness/src/egg.rs) printed once as egglog text and once as Gallina",
         ],
         "theorem_backed": "run_schedule (translated): (run R n) = n single iterations ending after the first no-change one; :until tested before "
                           "every iteration; repeat a (repeat b s) = repeat (a*b) s under no early stop; seq associativity/flattening/unit; "
                           "saturate ends on a no-update execution and (for quiescent leaves) at a fixpoint, idempotent; RunReport monoid; "
-                          "collect_rule_ids resolves combined rulesets against the current table -- all for every step/holds",
-        "link_only": "what one iteration does to the database and when it reports `changed` (step_rules / backend.run_rules), leaf quiescence "
-                     "(a no-update iteration leaves the canonical dump unchanged) and purity of check_facts: checked on the real engine by h_sched "
-                     "(law-related schedule pairs give equal dumps; re-running a saturated schedule reports no update)",
+                          "collect_rule_ids resolves combined rulesets against the current table -- all for every step/holds. Session 4: the "
+                          "command (run R n :until f) as the parser desugars it (regenerated desugar_run) IS iterate (c10_parse_run), saturate/repeat "
+                          "wrap their bodies in one Sequence (c10_parse_shapes); the `changed` flag takes rows added and merge callbacks that changed "
+                          "a value/subsume flag, never removals nor the rebuild (c10_flag_inputs, regenerated); the concrete step egg_step (one "
+                          "iteration of Egg/Rules.v over the ruleset resolved by collect_rule_ids, flag computed per ground command through the "
+                          "regenerated flag functions) is singleton_like, so (run R n :until f) over Egg states is iterate of Egg iterations "
+                          "(c10_egg_step_singleton, c10_egg_run_n); 'updated iff database changed' is REFUTED right-to-left by a delete-only "
+                          "iteration (c10_updated_iff_changed_refuted; same on the engine, counted by the harness)",
+        "link_only": "leaf quiescence of egg_step for delete-free rulesets (an iteration whose flag is false leaves the Egg state unchanged) is NOT "
+                     "proved yet: it is checked by h_sched stream egg, where the kernel evaluates run_schedule over egg_step and compares, per case, "
+                     "the changed flag of EVERY engine iteration and the observable database after the schedule (class vector of probe terms, table "
+                     "sizes, subsumed counts, int probes) -- so what one iteration does to the database and when it reports `changed` is now a "
+                     "model-vs-engine correspondence, no longer only law pairs; purity of check_facts and law-related schedule pairs on the text "
+                     "programs (rewrite pool) remain engine-only checks of the first stream",
         "assumptions": [
             "step_rules and check_facts are total functions of the state (Err paths: NoSuchRuleset is excluded by schedule typechecking; a failing primitive aborts the schedule and is not modelled)",
             "check_facts is modelled as a pure test (the code runs a throw-away rule; the harness checks the dump is unchanged by a stopped :until run)",
             "RunReport timing / match-count maps are not modelled (no branch reads them)",
             "custom schedulers (src/scheduler.rs, can_stop != !updated) are covered by the theorems that do not assume singleton_like, not by the harness",
+            "egg_step models an aborted iteration (panic / :no-merge conflict) as a sticky error state reporting no update; stream egg skips schedules on which the engine returns an error",
+            "stream egg keeps delete rules on a relation no rule writes (the engine applies the removals of a batch before its insertions, the sequential model in rule order) and uses saturate only in programs whose rules create no terms",
         ],
     }
